@@ -7,7 +7,7 @@ fail=0
 for d in preserving/*/; do
   id=$(basename $d)
   out=$(tools/run_preserving.sh $d 2>&1)
-  bad=$(echo "$out" | grep -E "exit=[12]" | tr '\n' ' ')
+  bad=$(echo "$out" | grep -E "exit=[12]|does not apply|refusing" | tr '\n' ' ')
   if [ -z "$bad" ]; then echo "silent   $id"; else echo "FLAGGED  $id  $bad"; [ "$id" = "C12-PB" ] || fail=1; fi
 done
 rm -rf "${SIMPLC_OUT_DIR:-/tmp/simplc-sensitivity-out}"
